@@ -4,11 +4,12 @@ import { loadModule, traced } from '../runtime/evalhost.mjs';
 
 export const id = 'C15';
 
-export const PLACEMENTS = ['fileHead', 'beforeFirst', 'beforeMiddle', 'beforeLast', 'insideFunction', 'trailing', 'afterImportSameLine', 'insideJsx', 'afterHashbang', 'fileHeadThenComment', 'beforeMiddleThenComment', 'fileHeadAfterComment', 'beforeLastBetweenComments', 'fileHeadLaterOtherComment', 'beforeFirstLaterJsxFrag'];
+export const PLACEMENTS = ['fileHead', 'beforeFirst', 'beforeMiddle', 'beforeLast', 'insideFunction', 'trailing', 'afterImportSameLine', 'insideJsx', 'afterHashbang', 'fileHeadThenComment', 'beforeMiddleThenComment', 'fileHeadAfterComment', 'beforeLastBetweenComments', 'fileHeadLaterOtherComment', 'beforeFirstLaterJsxFrag', 'fileHeadLaterInvalidJsx', 'fileHeadAfterJsxRuntimeComment'];
 export const STYLES = ['line', 'block', 'jsdocSingle', 'jsdocMulti', 'blockMultiStar'];
 // [text, effect] effect: name | null (no effect) | {anyOf:[...]}
 export const TEXTS = [
   ['@jsx vue$h', 'vue$h'], ['@jsx $$h', '$$h'], ['@jsx cr\u00e9er', 'cr\u00e9er'], ['@jsx h2_x', 'h2_x'], ['@jsx _h', '_h'],
+  ['@jsxRuntime classic\n * @jsx h', 'h', 'multi'], ['@jsxImportSource vue\n * @jsxFrag F\n * @jsx myH', 'myH', 'multi'], ['@jsx 2x faster\n * @jsx h', 'h', 'multi'], ['@jsx\n * @jsx h', 'h', 'multi'],
   ['@jsx h', 'h'], ['@jsx  h ', 'h'], ['@jsx\th', 'h'], ['@jsx myH', 'myH'], ['@jsx $h', '$h'],
   ['@jsx h extra words', 'h'], ['@jsx h -- the hyperscript factory', 'h'], ['@jsx h (overrides the configuration)', 'h'], ['@jsx', null], ['@jsx ', null],
   ['@jsxImportSource vue', null], ['@jsxRuntime automatic', null], ['@jsxFrag F', null], ['@jsxh', null],
@@ -34,7 +35,8 @@ function moduleWith(placement, c, c2) {
   if (placement === 'afterHashbang') L.push('#!/usr/bin/env node', c);
   if (placement === 'fileHeadThenComment') L.push(c, OTHER, OTHER2);
   if (placement === 'fileHeadAfterComment') L.push(OTHER2, OTHER, c);
-  if (placement === 'fileHead' || placement === 'fileHeadLaterOtherComment') L.push(c);
+  if (placement === 'fileHeadAfterJsxRuntimeComment') L.push('/* @jsxRuntime classic */', '// @jsx 2x faster', c);
+  if (placement === 'fileHead' || placement === 'fileHeadLaterOtherComment' || placement === 'fileHeadLaterInvalidJsx') L.push(c);
   L.push(placement === 'afterImportSameLine' ? `import C0 from "probe:C0"; ${c}` : 'import C0 from "probe:C0";');
   if (placement === 'beforeFirst' || placement === 'beforeFirstLaterJsxFrag') L.push(c);
   L.push('export const t0 = () => <div id="a" v-show={g0}><span v-foo={g0}>s</span><>frag{g0}</><input v-model={mv} /></div>;');
@@ -43,6 +45,7 @@ function moduleWith(placement, c, c2) {
   if (c2) L.push(c2.text);
   if (placement === 'fileHeadLaterOtherComment') L.push('// an ordinary comment before a later statement');
   if (placement === 'beforeFirstLaterJsxFrag') L.push('/* @jsxFrag F */');
+  if (placement === 'fileHeadLaterInvalidJsx') L.push('// @jsx 2x faster', '/* @jsx - */');
   L.push('function inner() {');
   if (placement === 'insideFunction') L.push('  ' + c.replace(/\n/g, '\n  '));
   L.push('  return <C0 x={g0} v-bar:arg_m={g0}><i />{g0}</C0>;', '}');
@@ -54,12 +57,13 @@ function moduleWith(placement, c, c2) {
   return L.join('\n') + '\n';
 }
 
-const EFFECTIVE = new Set(['fileHeadLaterOtherComment', 'beforeFirstLaterJsxFrag', 'fileHead', 'beforeFirst', 'beforeMiddle', 'beforeLast', 'afterHashbang', 'fileHeadThenComment', 'beforeMiddleThenComment', 'fileHeadAfterComment', 'beforeLastBetweenComments']);
+const EFFECTIVE = new Set(['fileHeadLaterInvalidJsx', 'fileHeadAfterJsxRuntimeComment', 'fileHeadLaterOtherComment', 'beforeFirstLaterJsxFrag', 'fileHead', 'beforeFirst', 'beforeMiddle', 'beforeLast', 'afterHashbang', 'fileHeadThenComment', 'beforeMiddleThenComment', 'fileHeadAfterComment', 'beforeLastBetweenComments']);
 
 export function* generate({ tier, seed }) {
   const rng = mulberry32(seed * 141650939 + 43);
   let n = 0;
-  for (const placement of PLACEMENTS) for (const style of STYLES) for (const [text, effect] of TEXTS) for (const optPragma of [null, 'optH']) for (const optimize of (tier === 'quick' ? [false] : [false, true])) {
+  for (const placement of PLACEMENTS) for (const style of STYLES) for (const [text, effect, multi] of TEXTS) for (const optPragma of [null, 'optH']) for (const optimize of (tier === 'quick' ? [false] : [false, true])) {
+    if (multi && style !== 'jsdocMulti' && style !== 'blockMultiStar') continue;
     const c = comment(style, text);
     if (placement === 'insideJsx' && style !== 'block' && style !== 'jsdocSingle') continue;
     if (placement === 'afterImportSameLine' && style === 'line') { /* fine: rest of line */ }
